@@ -184,6 +184,56 @@ func runC11(c *Check, rng *rand.Rand) {
 			c.Sample(wit)
 		}
 	}
+	// a split request completed by one fragment's error, whose sibling then answers with a
+	// redirect to a node the proxy knows (or with a late normal reply): the request stays
+	// answered with the error, nothing crashes, the next requests are undisturbed
+	for i := 0; i < c.Pick(24, 300) && env.P.Alive(); i++ {
+		kind := []string{"mget", "del", "mset"}[i%3]
+		r := c07genNodes(rng, env, kind, 2, 2+rng.Intn(2), nil) // the two fragments on different nodes
+		r.override = map[int][]byte{}
+		e := c11errors[(i*3)%len(c11errors)]
+		r.override[r.slots[0]] = ErrReply(e)
+		other := env.T.Owner(r.slots[0]).Node
+		if i%2 == 0 {
+			kw := "MOVED"
+			if i%4 == 0 {
+				kw = "ASK"
+			}
+			r.override[r.slots[1]] = ErrReply(fmt.Sprintf("%s %d %s", kw, r.slots[1], other.Addr))
+		}
+		gates := r.install(script, true)
+		cl, err := env.Dial()
+		must(err, "dial")
+		cl.Send(r.raw)
+		env.Barrier()
+		gates[0].Open() // the error first
+		ok := cl.WaitReplies(1, 3*time.Second)
+		env.Barrier()
+		gates[1].Open() // then the sibling: redirect or late normal reply
+		env.Barrier()
+		// follow-up traffic on the same connection
+		fk := Key(rng.Intn(16384), newToken("fu"))
+		cl.Send(Req("GET", fk))
+		ok2 := cl.WaitReplies(2, 3*time.Second)
+		wit := map[string]interface{}{"request": Q(r.raw), "first_fragment_reply": e, "second_fragment_reply": Q(r.override[r.slots[1]])}
+		c.Eval(1)
+		c.Distinct(fmt.Sprintf("error-then-sibling/%s/%d", kind, i%4))
+		switch {
+		case !env.P.Alive():
+			wit["stderr"] = env.P.OutputTail(1500)
+			c.Violate(Violation{Class: "proxy-died", Shape: kind + "/late-sibling-after-error", Detail: "proxy crashed when a sibling fragment answered after the request had been completed by an error: " + env.P.PanicLine(), Witness: wit})
+			restart()
+		case !ok || cl.Snapshot().Replies[0].Val.Kind != '-':
+			c.Violate(Violation{Class: "error-converted-to-success", Shape: kind + "/late-sibling-after-error", Detail: "request with an erroring fragment not answered with an error", Witness: wit})
+		case !ok2 || !bytes.Equal(cl.Snapshot().Replies[1].Val.Raw, BulkReply([]byte("v:"+fk))):
+			wit["received"] = valStrings(cl.Snapshot().Replies)
+			c.Violate(Violation{Class: "following-request-disturbed", Shape: kind + "/late-sibling-after-error", Detail: "the request after it was not answered normally", Witness: wit})
+		default:
+			c.Count("split_errors_surfaced", 1)
+		}
+		cl.Close()
+		r.forget(script)
+	}
 	if env.P.Alive() {
 		c11witness(c, env, script, rng)
 	}
